@@ -173,6 +173,10 @@ Print Assumptions C10_att_feed_checked.
    package (0x1210 then 0x1212 before the repair 79eb06f) *)
 Example C10_unguarded_slot_panics : set_nth_chk (N.to_nat (0 - 1)) [1] ([] : list (list N)) = Panic.
 Proof. reflexivity. Qed.
+(* ... and slot 3 of a two-slot table (packet 1 of 2, then "packet 3 of 3" of the same id): what a guard on the
+   frame's own total instead of the table's length would index; complete_pack_chk answers both from the table's length *)
+Example C10_slot_beyond_table_panics : set_nth_chk (N.to_nat (3 - 1)) [3] [[1; 2]; []] = Panic.
+Proof. reflexivity. Qed.
 Example C10_file_handler_can_panic :
   on_event_chk 1 (Attach.set_stage Attach.init_st Attach.ST_SUPPL) = Panic.
 Proof. reflexivity. Qed.
